@@ -51,6 +51,9 @@ class AgentScript:
         self.announced.append((st.engine_id, st.boots, st.time))
         self.current = (st.engine_id, st.boots, st.time)
         if d["pdu_type"] == 0 and not d["varbinds"]:
+            # (a Report carries the request-id of the request "if it can be determined", else 0 — RFC 3412 7.1 step 3:
+            #  an agent that could not decrypt or parse the PDU answers with request-id 0)
+            d = dict(d, request_id=d["request_id"] if self.rng.random() < 0.6 else 0)
             if d["engine_id"] == b"":
                 # the contextEngineID of a Report need not be the authoritative engine id (RFC 3412: it names the
                 # context of the PDU); the session must learn the engine id from the USM header
